@@ -399,6 +399,10 @@ func runC18(r *Run, replay *Case) {
 		}
 		return mm
 	}
+	if replay != nil && replay.Input["stream"] == "markdown-layers" {
+		c18MarkdownLayers(r)
+		return
+	}
 	if replay != nil {
 		var layers []c18Layer
 		remarshal(replay.Input["desc"], &layers)
@@ -408,6 +412,7 @@ func runC18(r *Run, replay *Case) {
 	}
 	r.Res.Rule = "layer stacks enumerated over a 5-path universe (each path absent/file/dir per layer, nil layers included) x open/readdir/glob queries; " +
 		"non-trivial = the queried path/pattern is present in at least one layer; distinct by (query, serving layer or merged listing)"
+	c18MarkdownLayers(r)
 	cfgs := c18LayerConfigs(r.Thorough())
 	qs := c18Queries()
 	// corpus: the empty-directory case first
